@@ -4,7 +4,7 @@ from .checks import _sum
 
 
 def _x(name, *args, **kw):
-    return dict(name=name, driver="c20_xinc", args=list(args), **kw)
+    return dict(name=name, driver="c20_xinc", args=list(args) + ["--apis", 3], **kw)
 
 
 def _cov(rs):
@@ -39,19 +39,20 @@ _RULE = (
     "(itself included) or the missing file (then with a text fallback); non-main files carry a prolog comment and a trailing PI and, with rb>1, a relative or an absolute "
     "xml:base on their root (hrefs then relative to it); assignments that differ only in a file no include mentions are executed once (pruned_equivalent). "
     "quick: n=2 full templates rb=3 (3 885 assignments); n=3 reduced templates {root only, document element, first child, nested, in-fallback} (4 913). "
-    "thorough: + n=3 full templates (185 193), n=3 reduced rb=3 (103 173), n=4 reduced (194 481). "
+    "thorough: + n=3 all templates except nested+following-sibling (68 921), n=3 reduced rb=3 (31 433), n=4 reduced (194 481). "
     "(opts) main document = one include at each of 5 positions x an 87-entry option catalogue (target b / c / a itself / missing / text files / no href; parse absent, xml, text, bogus; "
     "encoding absent, ISO-8859-1, UTF-16; xpointer; xml:base on the xi:include; fallback none, empty, text, elements+text, nested include (4 targets, with/without inner fallback), "
     "two fallbacks, xi:include child, fallback outside an include) x 9 forms of b.xml (plain; absolute / relative xml:base on the root; includes c; includes a (loop); "
     "document element is an include; include under a relative xml:base; includes itself; includes c twice) = 3 915; two includes per document: quick catalogue x every 4th catalogue entry x {first+last child} x plain b (1 914), "
-    "thorough catalogue^2 x 2 templates x 3 forms of b (45 414). (leak) catalogue x 2 contexts (middle child + plain b; document element + b including a) re-run with LeakSanitizer, leak check after every case. "
+    "thorough catalogue^2 x 2 templates x 2 forms of b (30 276). (leak) catalogue x 2 contexts (middle child + plain b; document element + b including a) re-run with LeakSanitizer, leak check after every case. "
     "(defects) one minimal reproducer per entry of KNOWN_DEFECTS, evaluated strictly. "
-    "Every case is parsed by XercesDOMParser(setDoNamespaces, setDoXInclude, parse(systemId)) and DOMLSParser(namespaces, fgXercesDoXInclude, parseURI) under ASan+UBSan "
-    "with the runner's crash pinning and 20 s watchdog. Oracle: reference XInclude 1.0 expander over expat trees: expected DOM dump (elements with namespace, attributes, "
+    "Every case is processed three ways under ASan+UBSan: XercesDOMParser(setDoNamespaces, setDoXInclude, parse(systemId)), DOMLSParser(namespaces, fgXercesDoXInclude, parseURI) and "
+    "XIncludeDOMDocumentProcessor::doXIncludeDOMProcess on the document parsed without XInclude; runner crash pinning, 20 s watchdog and a budget of 300 file opens per parse "
+    "(exceeding it = runaway inclusion; the real maximum in these spaces is 79). Oracle: reference XInclude 1.0 expander over expat trees: expected DOM dump (elements with namespace, attributes, "
     "text, comments, PIs) equal modulo xml:base attributes; getBaseURI() of every result element equal to its base URI in its source document; when the reference finds a "
     "fatal error (loop / self inclusion, missing resource without fallback, two fallbacks, xi:include child, orphan fallback, bad parse value, xpointer, no href, include as "
     "document element not replaced by exactly one element) an error/fatal error or documented exception must be reported, and for each such kind except the last a message of "
-    "the corresponding XInclude error code; no error may be reported otherwise; both parsers must agree on tree, base URIs, messages and exception.")
+    "the corresponding XInclude error code; no error may be reported otherwise; the two parsers must agree with each other on tree, base URIs, messages and exception.")
 
 SPEC = dict(
     level="exploration",
@@ -80,7 +81,7 @@ SPEC = dict(
         thorough=[_x("defects-strict", "--space", "defects"),
                   _x("opts-one-and-two-includes", "--space", "opts", "--pairs", 2),
                   _x("graph-2-files", "--space", "graph", "--files", 2, "--tset", "full", "--rb", 3),
-                  _x("graph-3-files", "--space", "graph", "--files", 3, "--tset", "full", "--rb", 1),
+                  _x("graph-3-files", "--space", "graph", "--files", 3, "--tset", "mid", "--rb", 1),
                   _x("graph-3-files-reduced-xmlbase", "--space", "graph", "--files", 3, "--tset", "small", "--rb", 3),
                   _x("graph-4-files-reduced", "--space", "graph", "--files", 4, "--tset", "small", "--rb", 1),
                   _x("leak-check", "--space", "leak")],
